@@ -94,15 +94,49 @@ type lifeErr struct {
 
 func (e *lifeErr) Error() string { return e.msg }
 
+// leakWitness establishes, once per process and by direct observation, whether
+// the two known defects are present in the tree under test: after Suspend
+// (resp. Resume) on a freshly initialized screen, does a harmless locking call
+// (Size) still return?  Only then may a later deadlock be attributed to them.
+var leakWitness struct {
+	done            bool
+	suspend, resume bool
+}
+
+func observeLeaks() {
+	if leakWitness.done {
+		return
+	}
+	leakWitness.done = true
+	probe := func(first func(s tcell.Screen)) bool {
+		s, err := newLiveScreen()
+		if err != nil {
+			return false
+		}
+		if ok, pan := guarded(fullGuard, func() { first(s) }); !ok || pan != nil {
+			return false
+		}
+		ok, _ := guarded(500*time.Millisecond, func() { s.Size() })
+		if ok {
+			closeScreen(s)
+		}
+		return !ok
+	}
+	leakWitness.suspend = probe(func(s tcell.Screen) { _ = s.Suspend() })
+	leakWitness.resume = probe(func(s tcell.Screen) { _ = s.Resume() })
+}
+
 func lifeProp(c LifeCase) error {
+	observeLeaks()
 	s, err := newLiveScreen()
 	if err != nil {
 		return err
 	}
-	// Model of the two known lock leaks, used ONLY to (a) classify a failure and
-	// (b) shorten the guard for calls the known defect makes block: Suspend on a
-	// running screen and Resume on a running screen return with the mutex held.
-	// Calls that are not predicted to block always get the full 2 s.
+	// Model of the two known lock leaks (only as far as observeLeaks saw them),
+	// used ONLY to (a) classify a failure and (b) shorten the guard for calls the
+	// known defect makes block: Suspend on a running screen and Resume on a
+	// running screen return with the mutex held.  Calls that are not predicted to
+	// block always get the full 2 s.
 	running, fini := true, false
 	leakedBy := ""
 	knownGuard := time.Duration(pbt.Pick(60, 2000)) * time.Millisecond
@@ -132,7 +166,7 @@ func lifeProp(c LifeCase) error {
 			e = call(i, op, true, func() { _ = s.Suspend() })
 			if e == nil && running {
 				running = false
-				if leakedBy == "" {
+				if leakedBy == "" && leakWitness.suspend {
 					leakedBy = idSuspendLock
 				}
 			}
@@ -140,7 +174,7 @@ func lifeProp(c LifeCase) error {
 			e = call(i, op, true, func() { _ = s.Resume() })
 			if e == nil {
 				if running {
-					if leakedBy == "" {
+					if leakedBy == "" && leakWitness.resume {
 						leakedBy = idResumeLock
 					}
 				} else {
